@@ -345,6 +345,9 @@ func effectRows(c *Ctx, fn *ssa.Function) []siteRow {
 				if n == "" {
 					n = "dyn:" + c.Expr(cc.Value)
 				}
+				if isLoggingCall(n) {
+					return // diagnostics have no protocol effect: adding or rewording a log line is not a deviation
+				}
 				var args []string
 				for _, a := range callArgs(cc) {
 					args = append(args, c.Expr(a))
@@ -354,4 +357,18 @@ func effectRows(c *Ctx, fn *ssa.Function) []siteRow {
 		})
 	}
 	return rows
+}
+
+func isLoggingCall(n string) bool {
+	n = normRef(n)
+	for _, suf := range []string{").vlogf", ").logf", ").condlogf", ".vlogf", ".logf"} {
+		if strings.HasSuffix(n, suf) {
+			return true
+		}
+	}
+	switch n {
+	case "log.Printf", "log.Println", "log.Print", "(*log.Logger).Printf", "(*log.Logger).Println", "(*log.Logger).Print", "http2.summarizeFrame":
+		return true
+	}
+	return false
 }
